@@ -616,11 +616,10 @@ func c16Conc() string {
 			bad.CompareAndSwap(nil, cl)
 		}
 	}
-	// Status hands out the debugger's live breakpoint map: encoding a status result while another
-	// goroutine sets a breakpoint is a fatal "concurrent map iteration and map write" in the Go
-	// runtime (reported as a finding; fixes/C16-status-breakpoints-copy.patch). Status results are
-	// therefore only encoded here when VERIF_C16_ENCODE_STATUS is set.
-	encodeStatus := os.Getenv("VERIF_C16_ENCODE_STATUS") != ""
+	// Status used to hand out the debugger's live breakpoint map: encoding a status result while another
+	// goroutine set a breakpoint was a fatal "concurrent map iteration and map write" (repaired in /repo:
+	// "fix: debugger status returns a copy of the break point table"). Status results are always encoded.
+	encodeStatus := os.Getenv("VERIF_C16_NO_ENCODE_STATUS") == ""
 	class := func(line string) (cl string) {
 		defer func() {
 			if e := recover(); e != nil {
